@@ -43,6 +43,8 @@ class AsyncResult(g_AsyncResult):
     num_ars = len(ars)
     total = [num_ars]
     results = [None] * num_ars
+    if num_ars == 0:
+      ret.set(results)
     def complete(_n, _ar):
       if _ar.exception:
         ret.set_exception(_ar.exception)
